@@ -143,7 +143,8 @@ CHECKS = {
          'evaluation; the declared precedence is the usual one. Tied to the code by generated tables plus random trees in '
          'three renderings through Parser.parse vs the interpreter model and vs exact rational evaluation.',
     design='7/C04',
-    note='atoms of the theorem are number literals (variables, cells and calls are covered by the correspondence); ply '
+    note='the C04-specific theorems have number literals as atoms; the generalisation to the whole reference grammar (all literal forms, '
+         'variables, cells, ranges, calls, arrays) and parentheses-irrelevance over it are Proofs/LRfull.v and Proofs/ParensFull.v; ply '
          'LRParser and the grammar actions are modelled (lr_step, sem_action) and tied by correspondence; a changed '
          'precedence/table breaks the certificate obligation itself.',
     technique='Coq proof (table certificate by vm_compute + structural induction on trees over the generated LR tables) + generated tables + random-tree correspondence'),
